@@ -227,3 +227,100 @@ Example C06_nonvacuous :
   two_point_crossover [[0; 0; 0; 0]; [1; 1; 1; 1]]%Z [DI 4 2; DI 4 2; DI 4 1; DU (3 # 4)] = Some ([1; 0; 0; 1]%Z, []).
 Proof. vm_compute. auto. Qed.
 Print Assumptions C06_nonvacuous.
+
+(* ------------------------------------------------------------------------------------------------
+   THE TIE TO THE SOURCE.  gen/GenCode.v is regenerated on every run from the bodies of the operators in
+   utils/crossovers.py and utils/mutations.py (harness/translate_code.py; semantics of the subset:
+   theories/Py.v).  The models the theorems above are about are EQUAL to those generated definitions, for
+   every input and every list of draws; headline theorems are restated about the generated definitions. *)
+From Coq Require Import String.
+From TF Require Import Py CodeEqC11 CodeEqC06.
+From TFG Require Import GenCode.
+Open Scope Z_scope.
+
+Theorem C06_code_empty_crossover : forall ps fitness rank ds,
+  ret (py_empty_crossover ps fitness rank) ds = empty_crossover ps ds.
+Proof. exact code_empty_crossover. Qed.
+Print Assumptions C06_code_empty_crossover.
+
+Theorem C06_code_one_point_crossover : forall ps fitness rank ds, length (nth 1 ps []) = width ps ->
+  py_one_point_crossover ps fitness rank ds = one_point_crossover ps ds.
+Proof. exact code_one_point_crossover. Qed.
+Print Assumptions C06_code_one_point_crossover.
+
+Theorem C06_code_two_point_crossover : forall ps fitness rank ds,
+  valid_draws ds -> length (nth 1 ps []) = width ps -> (2 <= width ps)%nat ->
+  py_two_point_crossover ps fitness rank ds = two_point_crossover ps ds.
+Proof. exact code_two_point_crossover. Qed.
+Print Assumptions C06_code_two_point_crossover.
+
+Theorem C06_code_uniform_crossover : forall ps fitness rank ds, valid_draws ds ->
+  py_uniform_crossover ps fitness rank ds = uniform_crossover ps fitness rank ds.
+Proof. exact code_uniform_crossover. Qed.
+Print Assumptions C06_code_uniform_crossover.
+
+Theorem C06_code_uniform_proportional_crossover : forall ps fitness rank ds, fitness <> [] ->
+  py_uniform_proportional_crossover ps fitness rank ds = uniform_proportional_crossover ps fitness rank ds.
+Proof. exact code_uniform_proportional_crossover. Qed.
+Print Assumptions C06_code_uniform_proportional_crossover.
+
+Theorem C06_code_uniform_rank_crossover : forall ps fitness rank ds, rank <> [] ->
+  py_uniform_rank_crossover ps fitness rank ds = uniform_rank_crossover ps fitness rank ds.
+Proof. exact code_uniform_rank_crossover. Qed.
+Print Assumptions C06_code_uniform_rank_crossover.
+
+Theorem C06_code_flip_mutation : forall x p ds, py_flip_mutation x p ds = flip_mutation x p ds.
+Proof. exact code_flip_mutation. Qed.
+Print Assumptions C06_code_flip_mutation.
+
+Theorem C06_code_binomialGA : forall individ mutant CR ds,
+  py_binomialGA individ mutant CR ds = binomialGA individ mutant CR ds.
+Proof. exact code_binomialGA. Qed.
+Print Assumptions C06_code_binomialGA.
+
+Theorem C06_src_one_point : forall ps fitness rank ds child ds',
+  valid_draws ds -> length (nth 1 ps []) = width ps ->
+  py_one_point_crossover ps fitness rank ds = Some (child, ds') ->
+  exists c coin, 0 <= c < Z.of_nat (width ps) /\ child = one_point_child ps c coin.
+Proof. exact src_one_point. Qed.
+Print Assumptions C06_src_one_point.
+
+Theorem C06_src_two_point : forall ps fitness rank ds child ds',
+  valid_draws ds -> length (nth 1 ps []) = width ps -> (2 <= width ps)%nat ->
+  py_two_point_crossover ps fitness rank ds = Some (child, ds') ->
+  exists c0 c1 coin, 0 <= c0 < c1 /\ c1 < Z.of_nat (width ps) /\ child = two_point_child ps c0 c1 coin.
+Proof. exact src_two_point. Qed.
+Print Assumptions C06_src_two_point.
+
+Theorem C06_src_uniform : forall ps fitness rank ds child ds',
+  valid_draws ds -> length fitness = length ps ->
+  py_uniform_crossover ps fitness rank ds = Some (child, ds') ->
+  from_parents ps child /\ exists ch, length ch = width ps /\ child = from_choice ps ch.
+Proof. exact src_uniform. Qed.
+Print Assumptions C06_src_uniform.
+
+Theorem C06_src_flip_never_at_0 : forall x p ds child ds', valid_draws ds -> (p <= 0)%Q ->
+  py_flip_mutation x p ds = Some (child, ds') -> child = build (length x) (fun i => nth i x 0).
+Proof. exact src_flip_never_at_0. Qed.
+Print Assumptions C06_src_flip_never_at_0.
+
+Theorem C06_src_flip_always_at_1 : forall x p ds child ds', valid_draws ds -> (1 <= p)%Q ->
+  py_flip_mutation x p ds = Some (child, ds') -> child = build (length x) (fun i => 1 - nth i x 0).
+Proof. exact src_flip_always_at_1. Qed.
+Print Assumptions C06_src_flip_always_at_1.
+
+Theorem C06_src_binomialGA : forall individ mutant CR ds child ds',
+  valid_draws ds -> (0 < length individ)%nat ->
+  py_binomialGA individ mutant CR ds = Some (child, ds') ->
+  length child = length individ /\
+  exists j, (j < length individ)%nat /\ nth j child 0 = nth j mutant 0 /\
+    forall i, (i < length individ)%nat -> nth i child 0 = nth i mutant 0 \/ nth i child 0 = nth i individ 0.
+Proof. exact src_binomialGA. Qed.
+Print Assumptions C06_src_binomialGA.
+
+(* "no operator modifies its inputs": every translated operator is free of writes into its parameters *)
+Theorem C06_no_param_writes : forall f, In f ["empty_crossover"; "binomialGA"; "one_point_crossover"; "two_point_crossover";
+    "uniform_crossover"; "uniform_proportional_crossover"; "uniform_rank_crossover"; "flip_mutation";
+    "proportional_selection"; "rank_selection"; "tournament_selection"]%string -> In f no_param_writes.
+Proof. intros f H. repeat (destruct H as [<-|H]; [vm_compute; tauto|]). destruct H. Qed.
+Print Assumptions C06_no_param_writes.
